@@ -5,36 +5,190 @@ Core Lean (`Rat` is core); single Mathlib modules may be imported here if really
 import CueVerif.Model.DecArith
 import CueVerif.Spec.Arith
 import CueVerif.Proofs.Dec
+import CueVerif.Proofs.ArithQuoAux
 namespace CueVerif.Proofs.ArithQuo
 open CueVerif CueVerif.Arith CueVerif.Spec.Arith
 
 /-- `reduceKeepingFloats` does not change the value -/
-theorem toRat_reduce (d : Dec) : toRat (reduceKeepingFloats d) = toRat d := by sorry
+theorem toRat_reduce (d : Dec) : toRat (reduceKeepingFloats d) = toRat d :=
+  toRat_reduceKeepingFloats d
+
+theorem cast_le2 (D R : Nat) : D ≤ 2 * R ↔ (D : Rat) ≤ 2 * (R : Rat) := by
+  have : (2 : Rat) * (R : Rat) = ((2 * R : Nat) : Rat) := by
+    rw [Rat.natCast_mul]; norm_cast
+  rw [this, Rat.natCast_le_natCast]
+
+/-- the two half-ulp bounds, with the sign -/
+theorem rounding_rat (σ V w : Rat) (q0 q1 R D : Nat) (hσ : σ = 1 ∨ σ = -1) (hw : 0 < w)
+    (hq : (D ≤ 2 * R ∧ q1 = q0 + 1) ∨ (¬ D ≤ 2 * R ∧ q1 = q0)) (hRD : R < D)
+    (hVD : V * (D : Rat) = ((q0 : Rat) * D + R) * w) :
+    2 * (σ * V - σ * ((q1 : Rat) * w)) ≤ w ∧ 2 * (σ * ((q1 : Rat) * w) - σ * V) ≤ w := by
+  have hD : (0 : Rat) < D := Rat.natCast_pos.2 (by omega)
+  have hR0 : (0 : Rat) ≤ R := Rat.natCast_nonneg
+  have hRD' : (R : Rat) < D := Rat.natCast_lt_natCast.2 hRD
+  rcases hq with ⟨h1, rfl⟩ | ⟨h1, h2⟩
+  · obtain ⟨b1, b2⟩ := round_hi V w D q0 R hw hD hVD hRD' ((cast_le2 D R).1 h1)
+    have e : ((q0 + 1 : Nat) : Rat) = (q0 : Rat) + 1 := by rw [Rat.natCast_add]; norm_cast
+    rw [e]
+    rcases hσ with rfl | rfl <;> constructor <;> grind
+  · subst h2
+    obtain ⟨b1, b2⟩ := round_lo V w D q1 R hw hD hVD hR0 (fun h => h1 ((cast_le2 D R).2 h))
+    rcases hσ with rfl | rfl <;> constructor <;> grind
+
+theorem exact_rat (σ V w : Rat) (q0 q1 R D : Nat) (hσ : σ = 1 ∨ σ = -1) (hw : 0 < w)
+    (hq : (D ≤ 2 * R ∧ q1 = q0 + 1) ∨ (¬ D ≤ 2 * R ∧ q1 = q0)) (hRD : R < D)
+    (hVD : V * (D : Rat) = ((q0 : Rat) * D + R) * w) :
+    σ * ((q1 : Rat) * w) = σ * V ↔ R = 0 := by
+  have hD : (0 : Rat) < D := Rat.natCast_pos.2 (by omega)
+  have hR0 : (0 : Rat) ≤ R := Rat.natCast_nonneg
+  have hRD' : (R : Rat) < D := Rat.natCast_lt_natCast.2 hRD
+  have key : (q1 : Rat) * w = V ↔ (R : Rat) = 0 := by
+    apply exact_iff V w D q0 R q1 hw hD hVD hR0 hRD'
+    rcases hq with ⟨h1, rfl⟩ | ⟨h1, h2⟩
+    · left; refine ⟨(cast_le2 D R).1 h1, ?_⟩
+      rw [Rat.natCast_add]; norm_cast
+    · right; exact ⟨fun h => h1 ((cast_le2 D R).2 h), by rw [h2]⟩
+  have e0 : (R : Rat) = 0 ↔ R = 0 := Rat.natCast_eq_zero_iff
+  rw [← e0, ← key]
+  rcases hσ with rfl | rfl <;> constructor <;> intro h <;> grind
 
 /-- the contract of `apd.Context.Quo` as implemented by `quoRound`: correctly rounded -/
 theorem quoRound_isRounding (p : Nat) (hp : 0 < p) (a b : Dec) (ha : a.coeff ≠ 0) (hb : b.coeff ≠ 0) :
-    IsRounding p (quoRound p a b).1 (toRat a / toRat b) := by sorry
+    IsRounding p (quoRound p a b).1 (toRat a / toRat b) := by
+  obtain ⟨σ, V, q0, q1, R, D, hσ, hv, hr, hna, hq, hfl, hRD, hlo, hhi, hVD⟩ :=
+    quoRound_core p hp a b ha hb
+  refine ⟨?_, ?_⟩
+  · rw [hna]; rcases hq with ⟨_, rfl⟩ | ⟨_, rfl⟩ <;> omega
+  · rw [hv, hr]
+    exact rounding_rat σ V _ q0 q1 R D hσ (Rat.zpow_pos ten_pos) hq hRD hVD
 
 /-- the Inexact flag is exact -/
 theorem quoRound_flag (p : Nat) (hp : 0 < p) (a b : Dec) (ha : a.coeff ≠ 0) (hb : b.coeff ≠ 0) :
-    (quoRound p a b).2 = false ↔ toRat (quoRound p a b).1 = toRat a / toRat b := by sorry
+    (quoRound p a b).2 = false ↔ toRat (quoRound p a b).1 = toRat a / toRat b := by
+  obtain ⟨σ, V, q0, q1, R, D, hσ, hv, hr, hna, hq, hfl, hRD, hlo, hhi, hVD⟩ :=
+    quoRound_core p hp a b ha hb
+  rw [hfl, hv, hr]
+  exact (exact_rat σ V _ q0 q1 R D hσ (Rat.zpow_pos ten_pos) hq hRD hVD).symm
+
+/-- a positive value `σ·V` that is `c·10^E` is `|c|·10^E` -/
+theorem abs_of_fits (σ V : Rat) (c : Int) (E : Int) (hσ : σ = 1 ∨ σ = -1) (hV : 0 < V)
+    (h : (c : Rat) * (10 : Rat) ^ E = σ * V) : V = ((c.natAbs : Nat) : Rat) * (10 : Rat) ^ E := by
+  have hT : (0 : Rat) < (10 : Rat) ^ E := Rat.zpow_pos ten_pos
+  have hn : (0 : Rat) ≤ ((c.natAbs : Nat) : Rat) := Rat.natCast_nonneg
+  have hm : 0 ≤ ((c.natAbs : Nat) : Rat) * (10 : Rat) ^ E := Rat.mul_nonneg hn (Rat.le_of_lt hT)
+  rw [cast_eq_sg c] at h
+  rcases sg_cases c with hs | hs <;> rw [hs] at h <;> rcases hσ with rfl | rfl <;> grind
 
 /-- when the quotient needs at most `p` digits it is returned exactly -/
 theorem quoRound_of_fits (p : Nat) (hp : 0 < p) (a b : Dec) (ha : a.coeff ≠ 0) (hb : b.coeff ≠ 0)
-    (hf : FitsVal p (toRat a / toRat b)) : toRat (quoRound p a b).1 = toRat a / toRat b := by sorry
+    (hf : FitsVal p (toRat a / toRat b)) : toRat (quoRound p a b).1 = toRat a / toRat b := by
+  obtain ⟨σ, V, q0, q1, R, D, hσ, hv, hr, hna, hq, hfl, hRD, hlo, hhi, hVD⟩ :=
+    quoRound_core p hp a b ha hb
+  obtain ⟨d, ⟨c, j, hc, hdc⟩, hd⟩ := hf
+  have hw : (0 : Rat) < (10 : Rat) ^ (quoRound p a b).1.exp := Rat.zpow_pos ten_pos
+  have hD : (0 : Rat) < D := Rat.natCast_pos.2 (by omega)
+  have hVpos : 0 < V := by
+    have h1 : (0 : Rat) < ((q0 : Rat) * D + R) * (10 : Rat) ^ (quoRound p a b).1.exp := by
+      apply Rat.mul_pos _ hw
+      have : (0 : Rat) < ((q0 * D + R : Nat) : Rat) := by
+        apply Rat.natCast_pos.2
+        have : 0 < q0 := Nat.lt_of_lt_of_le (Nat.pow_pos (by decide)) hlo
+        have : 0 < q0 * D := Nat.mul_pos this (by omega)
+        omega
+      simpa [Rat.natCast_add, Rat.natCast_mul] using this
+    rw [← hVD] at h1
+    apply Rat.not_le.1
+    intro hle
+    have := Rat.mul_le_mul_of_nonneg_right hle (Rat.le_of_lt hD)
+    grind
+  have hd' : (c : Rat) * (10 : Rat) ^ (d.exp + j) = σ * V := by
+    rw [← hv, ← hd]
+    have : d = ⟨c * 10 ^ j, d.exp⟩ := by cases d; simp_all
+    rw [this, toRat_mul_pow]; rfl
+  have hVc := abs_of_fits σ V c _ hσ hVpos hd'
+  have hR0 : R = 0 := fits_exact p q0 R D c.natAbs V _ _ hp hVc hVD hRD hlo hc
+  rw [hv, hr]
+  exact (exact_rat σ V _ q0 q1 R D hσ hw hq hRD hVD).2 hR0
+
+theorem toRat_zero_coeff (e : Int) : toRat ⟨0, e⟩ = 0 := by
+  unfold toRat
+  have : ((0 : Int) : Rat) = 0 := by norm_cast
+  rw [this]; grind
+
+theorem zero_div_rat (x : Rat) : (0 : Rat) / x = 0 := by
+  rw [Rat.div_def]; grind
+
+/-- the three ways `quoOp` produces a number -/
+theorem quoOp_num (x y r : Num) (h : quoOp x y = .num r) :
+    y.d.coeff ≠ 0 ∧ r.k = .float ∧
+      ((x.d.coeff = 0 ∧ r.d = reduceKeepingFloats ⟨0, x.d.exp - y.d.exp⟩) ∨
+       (x.d.coeff ≠ 0 ∧ r.d = reduceKeepingFloats (quoRound prec x.d y.d).1)) := by
+  unfold quoOp at h
+  split at h
+  · cases h
+  · rename_i hy
+    have hy' : y.d.coeff ≠ 0 := by simpa using hy
+    refine ⟨hy', ?_⟩
+    split at h
+    · rename_i hx
+      have hx' : x.d.coeff = 0 := by simpa using hx
+      split at h
+      · injection h with h; subst h; exact ⟨rfl, Or.inl ⟨hx', rfl⟩⟩
+      · cases h
+    · rename_i hx
+      have hx' : x.d.coeff ≠ 0 := by simpa using hx
+      simp only at h
+      split at h
+      · cases h
+      · injection h with h; subst h; exact ⟨rfl, Or.inr ⟨hx', rfl⟩⟩
 
 /-- `/` always yields a float; its value is the correctly rounded quotient … -/
 theorem quo_rounded (x y r : Num) (h : quoOp x y = .num r) :
-    r.k = .float ∧ ∃ r0 : Dec, IsRounding prec r0 (toRat x.d / toRat y.d) ∧ toRat r.d = toRat r0 := by sorry
+    r.k = .float ∧ ∃ r0 : Dec, IsRounding prec r0 (toRat x.d / toRat y.d) ∧ toRat r.d = toRat r0 := by
+  obtain ⟨hy, hk, hc⟩ := quoOp_num x y r h
+  refine ⟨hk, ?_⟩
+  rcases hc with ⟨hx, hr⟩ | ⟨hx, hr⟩
+  · refine ⟨⟨0, 0⟩, ?_, ?_⟩
+    · have hx0 : toRat x.d = 0 := by
+        have : x.d = ⟨0, x.d.exp⟩ := by cases x; rename_i k d; cases d; simp_all
+        rw [this]; exact toRat_zero_coeff _
+      rw [hx0, zero_div_rat]
+      refine ⟨by simp, ?_, ?_⟩ <;> rw [toRat_zero_coeff] <;>
+        have := Rat.zpow_pos ten_pos (n := (0 : Int)) <;> grind
+    · rw [hr, toRat_reduce, toRat_zero_coeff, toRat_zero_coeff]
+  · refine ⟨(quoRound prec x.d y.d).1, quoRound_isRounding prec (by decide) _ _ hx hy, ?_⟩
+    rw [hr, toRat_reduce]
 
 /-- … and the exact quotient when that has at most 34 significant digits -/
 theorem quo_exact (x y r : Num) (h : quoOp x y = .num r)
-    (hf : FitsVal prec (toRat x.d / toRat y.d)) : toRat r.d = toRat x.d / toRat y.d := by sorry
+    (hf : FitsVal prec (toRat x.d / toRat y.d)) : toRat r.d = toRat x.d / toRat y.d := by
+  obtain ⟨hy, hk, hc⟩ := quoOp_num x y r h
+  rcases hc with ⟨hx, hr⟩ | ⟨hx, hr⟩
+  · have hx0 : toRat x.d = 0 := by
+      have : x.d = ⟨0, x.d.exp⟩ := by cases x; rename_i k d; cases d; simp_all
+      rw [this]; exact toRat_zero_coeff _
+    rw [hr, toRat_reduce, toRat_zero_coeff, hx0, zero_div_rat]
+  · rw [hr, toRat_reduce]
+    exact quoRound_of_fits prec (by decide) _ _ hx hy hf
 
 /-- `/` errors exactly on a zero divisor or outside the exponent window -/
 theorem quo_total (x y : Num) :
     (∃ r, quoOp x y = .num r ∧ y.d.coeff ≠ 0) ∨
     (quoOp x y = .err .divZero ∧ y.d.coeff = 0) ∨
-    (quoOp x y = .err .failed ∧ y.d.coeff ≠ 0) := by sorry
+    (quoOp x y = .err .failed ∧ y.d.coeff ≠ 0) := by
+  unfold quoOp
+  split
+  · rename_i hy
+    exact Or.inr (Or.inl ⟨rfl, by simpa using hy⟩)
+  · rename_i hy
+    have hy' : y.d.coeff ≠ 0 := by simpa using hy
+    split
+    · split
+      · exact Or.inl ⟨_, rfl, hy'⟩
+      · exact Or.inr (Or.inr ⟨rfl, hy'⟩)
+    · simp only
+      split
+      · exact Or.inr (Or.inr ⟨rfl, hy'⟩)
+      · exact Or.inl ⟨_, rfl, hy'⟩
 
 end CueVerif.Proofs.ArithQuo
